@@ -78,6 +78,53 @@ def jabort(n):
     return {"k": "jabort", "n": n}
 
 
+def hstart(n):
+    """a run of fullsync job n whose sink is the real httpDatasetSink (one sink object per n) starts"""
+    return {"k": "hstart", "n": n}
+
+
+def hbatch(n, ents):
+    return {"k": "hbatch", "n": n, "ents": [list(e) for e in ents]}
+
+
+def hend(n):
+    return {"k": "hend", "n": n}
+
+
+def translate(c, o):
+    """The pinned httpDatasetSink as a translation of its start/batch/end calls into the requests it sends: a fresh sync
+    id per run (100, 101, ...), the start header on the first batch of a run, an end request that clears the sink's sync
+    state only when it was answered 200 (read off the observation: a wrong answer is a mismatch at that step anyway).
+    Other events are returned unchanged."""
+    sinks = {}
+    fresh = [100]
+    out = []
+    steps = o.get("steps") or []
+    for i, e in enumerate(c["events"]):
+        k = e["k"]
+        if k not in ("hstart", "hbatch", "hend"):
+            out.append(e)
+            continue
+        st = sinks.setdefault(e["n"], {"in": False, "id": 0, "first": False})
+        if k == "hstart":
+            st.update({"in": True, "id": fresh[0], "first": True})
+            fresh[0] += 1
+            out.append({"k": "jabort", "n": e["n"]})          # no request is sent
+        elif k == "hbatch":
+            if not e.get("ents"):
+                out.append({"k": "jabort", "n": e["n"]})
+            elif st["in"]:
+                out.append(dict(http(e["ents"], st["first"], st["id"], False), sink=True))
+                st["first"] = False
+            else:
+                out.append(dict(http(e["ents"]), sink=True))
+        else:
+            out.append(dict(http([], False, st["id"], True), sink=True))
+            if i < len(steps) and steps[i]["status"] == 0:
+                st.update({"in": False, "id": 0, "first": False})
+    return out
+
+
 def txn(ents):
     return {"k": "txn", "ents": [list(e) for e in ents]}
 
@@ -523,7 +570,7 @@ def ev_term(e, on_error=""):
         # the run stops at the refused entity: what is in front of it is written, the call fails
         return "DJobPageFail %d %s" % (e["n"], vlib.coq_list([ent_term(x) for x in e["ents"][:e["poison"]]]))
     if k == "http":
-        return "DEv (EHttp %s %d %s %s)" % (vlib.coq_bool(e.get("start", False)), e.get("id", 0),
+        return "%s (EHttp %s %d %s %s)" % ("DSinkHttp" if e.get("sink") else "DEv",vlib.coq_bool(e.get("start", False)), e.get("id", 0),
                                             vlib.coq_bool(e.get("end", False)), ents)
     if k == "jstart":
         return "DEv (EJobStart %d)" % e["n"]
@@ -550,7 +597,7 @@ def step_term(s):
 def term(c, o):
     skipped = o.get("outcome") == "skipped"
     steps = [] if skipped else o.get("steps", [])
-    return "mkCase %s %s %s" % (vlib.coq_list([ev_term(e, c.get("on_error", "")) for e in c["events"]]), vlib.coq_bool(skipped),
+    return "mkCase %s %s %s" % (vlib.coq_list([ev_term(e, c.get("on_error", "")) for e in translate(c, o)]), vlib.coq_bool(skipped),
                                 vlib.coq_list([step_term(s) for s in steps]))
 
 
@@ -634,6 +681,10 @@ class _Cur:
         if k == "jbatch" and "poison" in e and on_error != LOG:
             self.store(ents[:e["poison"]])
             return 6
+        if k == "http" and e.get("sink"):
+            e2 = dict(e)
+            del e2["sink"]
+            return 0 if self.step(e2) == 0 else 6
         if k == "http":
             if e.get("start"):
                 self.start_full_sync("http")
